@@ -359,7 +359,10 @@ class DataOps:
         distinct = self._first_appearance(vals)
         r = random.Random(o['a'][1])
         chosen = r.sample(distinct, 1 + o['a'][2] % min(3, len(distinct)))
-        arg = chosen[0] if (len(chosen) == 1 and o['flag']) else (np.array(chosen) if o['flag2'] else list(chosen))
+        listed = list(chosen)
+        if o['a'][3] % 4 == 0:
+            listed = listed + [listed[0]]          # a value named twice still selects each matching item once
+        arg = chosen[0] if (len(chosen) == 1 and o['flag'] and len(listed) == 1) else (np.array(listed) if o['flag2'] else list(listed))
         try:
             res = getattr(obj, 'subset_' + axis)(by, arg)
         except Exception as e:
